@@ -54,6 +54,17 @@ except (OSError, ValueError):
     pass
 # changes kept although the broken property's check does not (and must not) fire on them
 NOT_A_VIOLATION = {
+ "C07-r8m2": "Not detected, by design: the builders' Drop impls drop the initialised prefix with a per-slot loop instead of drop_in_place on the slice, so when one "
+             "pulled item's DESTRUCTOR panics during a rejected collect the items after it are leaked. Nothing is released twice and nothing stale is read. C05 states "
+             "that 'elements that Rust's unwinding rules abandon may leak, but nothing is ever released twice'; C07's 'drops every item it pulled exactly once' does not "
+             "promise more than C05 allows once a destructor panics. An alarm would contradict C05's explicit allowance.",
+ "C01-r8m2": "Filed under C01 by its author, but what it breaks is C16's clause (every block released with the size and alignment it was requested with): boxed generate "
+             "deallocates with Layout::array::<T>(elements initialised so far) when the generator panics. C01 (size/alignment/offsets of the type and of views) holds. "
+             "C16's quick check detects it (see also_detected_by); C01's check is silent and should be.",
+ "C03-r8m2": "Filed under C03 by its author, but serde deserialisation is not among the ownership moves C03 lists; what it breaks is C17's clause (on rejected input the "
+             "elements already read are dropped exactly once). C17's quick check detects it (see also_detected_by); C03's check does not drive serde.",
+ "C20-r8m1": "box_arr![x; <const expr>] built on the stack: values are right whenever it returns. The clause it breaks for large lengths is C15's (box_arr! among the boxed "
+             "constructors that build arrays far larger than the stack); the small-stack children of the heap engine report it under C15 (see also_detected_by).",
  "C09-r7m1": "Not detected, by design: pop_front takes its raw pointer from a shared borrow of element 0 and reads the other N-1 elements through it. Values and drop counts are "
              "unchanged natively and under Miri/Tree Borrows; only the experimental Stacked Borrows model objects (provenance narrowed to one element). Every clause of C09 holds.",
  "C11-r7m1": "Not detected, by design: the by-reference Unflatten forms are routed through the crate's own chunks_from_slice(_mut) + from_(mut_)slice. Lengths, addresses and extents "
@@ -82,6 +93,9 @@ for name, (what, needs) in NEEDS.items():
     r = res.get(name, {})
     own = r.get("checks", {}).get(m["breaks_property"], {})
     m["detected_by"] = {"check": f"./check {m['breaks_property']} --tier quick", "exit": own.get("exit"), "signatures": own.get("signatures", [])[:6]}
+    also = {p: {"exit": c.get("exit"), "signatures": c.get("signatures", [])[:4]} for p, c in r.get("checks", {}).items() if p != m["breaks_property"]}
+    if also:
+        m["also_detected_by"] = also
     if name in NOT_A_VIOLATION:
         m["note"] = NOT_A_VIOLATION[name]
     m["what_i_ran"] = ["gen/confirm_mutants.py (patch applies to /repo HEAD; pinned suite passes; demo fails with / passes without the patch)",
